@@ -28,7 +28,7 @@ pub enum Slot {
 pub enum Step {
     /// bump one response scalar of one member, read the weights again, compare the ratios
     Reprobe { member: u16, slot: Slot },
-    /// adaptive attack on coordinate `coord` between members i and j using the weights learned so far
+    /// adaptive attack on coordinate `coord` between members i and j using factors observed on earlier runs of the same batch
     Attack { i: u16, j: u16, coord: u16, delta: u64 },
     /// (batches with a repeated member) bump the same response scalar in BOTH copies, read the factors again
     ReprobeTwins { slot: Slot },
@@ -173,6 +173,28 @@ fn weights_grouped(ms: &[Member<F>], proofs: &[RangeProof<FP>], action: VerifyAc
     Ok((0..ms.len()).map(|i| -res.coef(marker(i))).collect())
 }
 
+/// What an adversary who knows the algorithm computes before submitting: the factor with which a unit shift of d1[k] of the
+/// members `xs` enters the final equation of THIS batch (no marker, so the transcripts are those of the batch he will submit)
+fn probe_factor(ms: &[Member<F>], proofs: &[RangeProof<FP>], action: VerifyAction, xs: &[usize], k: usize) -> Result<Scalar, String> {
+    let (_, base) = run(ms, proofs, action)?;
+    let mut shifted = proofs.to_vec();
+    for &x in xs {
+        let mem = Member::<F> {
+            st: ms[x].st.clone(),
+            proof: proofs[x].clone(),
+            ctx: ms[x].ctx.clone(),
+            valid: true,
+            mask: None,
+            m: ms[x].m,
+            cap: ms[x].cap,
+            altered: false,
+        };
+        shifted[x] = edit(&mem, |pf| add(&mut pf.d1[k], Scalar::ONE))?;
+    }
+    let (_, res) = run(ms, &shifted, action)?;
+    Ok(res.coef(g_id(k)) - base.coef(g_id(k)))
+}
+
 pub fn oracle(ctx: &RunCtx, spec: &HistSpec, log: &mut CaseLog) -> Result<(), String> {
     oracle_impl(ctx, spec, log, true)
 }
@@ -181,6 +203,32 @@ pub fn oracle(ctx: &RunCtx, spec: &HistSpec, log: &mut CaseLog) -> Result<(), St
 /// how the factors move is C08's subject and is not judged here.
 pub fn oracle_acceptance_only(ctx: &RunCtx, spec: &HistSpec, log: &mut CaseLog) -> Result<(), String> {
     oracle_impl(ctx, spec, log, false)
+}
+
+/// The same histories judged for C03's equivalence only: a batch that the library ACCEPTS although the library REJECTS one of
+/// its members when that member is verified alone.
+pub fn oracle_iff_only(ctx: &RunCtx, spec: &HistSpec, log: &mut CaseLog) -> Result<(), String> {
+    IFF_ONLY.with(|c| c.set(true));
+    let r = oracle_impl(ctx, spec, log, false);
+    IFF_ONLY.with(|c| c.set(false));
+    r
+}
+
+thread_local! {
+    static IFF_ONLY: std::cell::Cell<bool> = const { std::cell::Cell::new(false) };
+}
+
+/// under `oracle_iff_only` an accepted attack batch counts only if the library itself rejects one of the altered members alone
+fn accepted_counts(ms: &[Member<F>], next: &[RangeProof<FP>], altered: &[usize]) -> Result<Option<String>, String> {
+    if !IFF_ONLY.with(|c| c.get()) {
+        return Ok(Some(String::new()));
+    }
+    for &x in altered {
+        if !crate::props::c03::singleton::<F>(&ms[x].ctx, &ms[x].st, &next[x])? {
+            return Ok(Some(format!(" although member {} is REJECTED when verified alone", x)));
+        }
+    }
+    Ok(None)
 }
 
 fn oracle_impl(_ctx: &RunCtx, spec: &HistSpec, log: &mut CaseLog, judge_factors: bool) -> Result<(), String> {
@@ -223,8 +271,6 @@ fn oracle_impl(_ctx: &RunCtx, spec: &HistSpec, log: &mut CaseLog, judge_factors:
             return Err(format!("the factor of member {} of {} in the batch equation is zero", i, n));
         }
     }
-    // what the adversary has learned so far: weights of the latest probe
-    let mut learned = w0.clone();
     let mut current = honest.clone();
     let mut shapes = vec![];
     for step in &spec.script {
@@ -271,7 +317,6 @@ fn oracle_impl(_ctx: &RunCtx, spec: &HistSpec, log: &mut CaseLog, judge_factors:
                         ));
                     }
                 }
-                learned = after;
                 current = next;
                 shapes.push(format!("reprobe:{:?}", slot).split('(').next().unwrap().to_string());
             },
@@ -283,9 +328,17 @@ fn oracle_impl(_ctx: &RunCtx, spec: &HistSpec, log: &mut CaseLog, judge_factors:
                 }
                 let k = pick(*coord, spec.ext);
                 let d = Scalar::from((*delta).max(1));
-                // offsets chosen with the factors observed on the previous run
+                // offsets chosen with the factors the verifier applied on earlier runs of this very batch (one run per member
+                // with a unit shift): if the factors do not move with the response scalars, these offsets cancel
+                let wi = probe_factor(&ms, &current, action, &[i], k)?;
+                let wj = probe_factor(&ms, &current, action, &[j], k)?;
+                if wj == Scalar::ZERO || wi == Scalar::ZERO {
+                    if judge_factors {
+                        return Err(format!("a unit shift of d1[{}] of member {} or {} does not enter the batch equation at all", k, i, j));
+                    }
+                    continue;
+                }
                 let di = d;
-                let dj = -(d * learned[i] * learned[j].invert());
                 let mk = |x: usize, dd: Scalar, cur: &RangeProof<FP>| {
                     let mem = Member::<F> {
                         st: ms[x].st.clone(),
@@ -299,15 +352,24 @@ fn oracle_impl(_ctx: &RunCtx, spec: &HistSpec, log: &mut CaseLog, judge_factors:
                     };
                     edit(&mem, |pf| add(&mut pf.d1[k], dd))
                 };
+                // two guesses for the ratio of the factors on the run to come: the one observed, and one (equal and opposite offsets)
                 let mut next = current.clone();
-                next[i] = mk(i, di, &current[i])?;
-                next[j] = mk(j, dj, &current[j])?;
-                let (ok, res) = run(&ms, &next, action)?;
-                if ok {
-                    return Err(format!(
-                        "ADAPTIVE CANCELLATION ACCEPTED: offsets +d on d1[{}] of member {} and -d*w_{}/w_{} on member {} (factors observed on the previous run) verify as a batch of {}",
-                        k, i, i, j, j, n
-                    ));
+                let mut res = FP::default();
+                for (guess, ratio) in [("w_i/w_j as observed on earlier runs", wi * wj.invert()), ("1 (equal and opposite offsets)", Scalar::ONE)] {
+                    let dj = -(d * ratio);
+                    next = current.clone();
+                    next[i] = mk(i, di, &current[i])?;
+                    next[j] = mk(j, dj, &current[j])?;
+                    let (ok, r) = run(&ms, &next, action)?;
+                    res = r;
+                    if ok {
+                        if let Some(why) = accepted_counts(&ms, &next, &[i, j])? {
+                            return Err(format!(
+                                "ADAPTIVE CANCELLATION ACCEPTED: offsets +d on d1[{}] of member {} and -d*ratio on member {}, ratio = {}, verify as a batch of {}{}{}",
+                                k, i, j, guess, n, if twin == Some((i.min(j), i.max(j))) { " (the two members are copies of one proof)" } else { "" }, why
+                            ));
+                        }
+                    }
                 }
                 if judge_factors && res.coef(g_id(k)) == Scalar::ZERO && current == honest {
                     return Err(format!(
@@ -315,8 +377,6 @@ fn oracle_impl(_ctx: &RunCtx, spec: &HistSpec, log: &mut CaseLog, judge_factors:
                         k, i, j
                     ));
                 }
-                // the adversary keeps learning: factors of the rejected run
-                learned = weights(&ms, &next, action)?;
                 shapes.push("attack".into());
                 log.nontrivial(&(n, i, j, k, shapes.clone(), spec.ext, bits));
             },
@@ -362,7 +422,6 @@ fn oracle_impl(_ctx: &RunCtx, spec: &HistSpec, log: &mut CaseLog, judge_factors:
                     }
                 }
                 current = next;
-                learned = weights(&ms, &current, action)?;
                 shapes.push("reprobe-twins".into());
             },
             Step::AttackTwins { other, coord, delta } => {
@@ -385,7 +444,15 @@ fn oracle_impl(_ctx: &RunCtx, spec: &HistSpec, log: &mut CaseLog, judge_factors:
                     }
                     return Err(format!("the factors of the two copies ({}, {}) of a repeated member sum to zero", a, b));
                 }
-                let dp = -(seen[q] * dq) * seen[a].invert();
+                let w_ab = probe_factor(&ms, &current, action, &[a, b], k)?;
+                let w_q = probe_factor(&ms, &current, action, &[q], k)?;
+                if w_ab == Scalar::ZERO {
+                    if !judge_factors {
+                        continue;
+                    }
+                    return Err(format!("a unit shift of d1[{}] in both copies ({}, {}) of a repeated member does not enter the batch equation", k, a, b));
+                }
+                let dps = [-(w_q * dq) * w_ab.invert(), -(dq * Scalar::from(2u8).invert())];
                 let mk = |x: usize, dd: Scalar, cur: &RangeProof<FP>| {
                     let mem = Member::<F> {
                         st: ms[x].st.clone(),
@@ -400,17 +467,21 @@ fn oracle_impl(_ctx: &RunCtx, spec: &HistSpec, log: &mut CaseLog, judge_factors:
                     edit(&mem, |pf| add(&mut pf.d1[k], dd))
                 };
                 let mut next = current.clone();
-                next[a] = mk(a, dp, &current[a])?;
-                next[b] = mk(b, dp, &current[b])?;
-                next[q] = mk(q, dq, &current[q])?;
-                let (ok, _) = run(&ms, &next, action)?;
-                if ok {
-                    return Err(format!(
-                        "ADAPTIVE CANCELLATION ACCEPTED: the same offset on d1[{}] of both copies ({}, {}) of a repeated member, compensated on member {} with factors observed on the previous run, verifies as a batch of {}",
-                        k, a, b, q, n
-                    ));
+                for (guess, dp) in dps.into_iter().enumerate() {
+                    next = current.clone();
+                    next[a] = mk(a, dp, &current[a])?;
+                    next[b] = mk(b, dp, &current[b])?;
+                    next[q] = mk(q, dq, &current[q])?;
+                    let (ok, _) = run(&ms, &next, action)?;
+                    if ok {
+                        if let Some(why) = accepted_counts(&ms, &next, &[a, b, q])? {
+                            return Err(format!(
+                                "ADAPTIVE CANCELLATION ACCEPTED: the same offset on d1[{}] of both copies ({}, {}) of a repeated member, compensated on member {} ({}), verifies as a batch of {}{}",
+                                k, a, b, q, if guess == 0 { "factors as observed on earlier runs" } else { "assuming equal factors" }, n, why
+                            ));
+                        }
+                    }
                 }
-                learned = weights(&ms, &next, action)?;
                 shapes.push("attack-twins".into());
                 log.nontrivial(&(n, a, q, k, shapes.clone(), spec.ext, bits));
             },
@@ -436,8 +507,7 @@ pub fn def() -> PropertyDef {
         rule: "A case is a history: a batch of 2-6 valid proofs over the free module (2-8 bits, degrees 1-6, mixed aggregation / capacity / seeds) \
                and an adaptive script of 1-4 steps. The factor by which each proof's equation enters the batch is read from the verifier's final \
                multiscalar result through a marker planted in each B. Steps: 'reprobe' - add 1 to r1, s1 or d1[k] of one member and read the \
-               factors again; 'attack' - add +d to d1[k] of member i and -d*w_i/w_j to d1[k] of member j, with w taken from the factors OBSERVED \
-               ON THE PREVIOUS RUN of the same history. Oracle: every factor is nonzero; after a reprobe the ratio w_i/w_x changed for every other \
+               factors again; 'attack' - add +d to d1[k] of member i and -d*ratio to d1[k] of member j (also: the same offset on both copies of a repeated member, compensated on a third), where ratio is first w_i/w_j with w the factor with which a unit shift of d1[k] entered the final equation on EARLIER RUNS of this very batch (no marker, so the transcripts are those of the batch submitted), then 1 (equal and opposite). Oracle: every factor is nonzero; after a reprobe the ratio w_i/w_x changed for every other \
                member x; every attack is rejected and (from the honest state) does not cancel on g_k. Second generator (R and F): naive \
                equal-and-opposite shifts of d1[k] in two or three members are rejected. Non-trivial = an attack step that uses factors observed \
                earlier in the same history; distinct by (batch size, i, j, k, script shape, degree, bits)."
